@@ -92,7 +92,8 @@ class Parser:
         if self.eat("&"):
             if self.peek()[0] == "lifetime":
                 self.i += 1
-            self.eat("mut")
+            if self.eat("mut"):
+                return ("ref", self.parse_type(), "mut")
             return ("ref", self.parse_type())
         if self.at("&&"):
             self.i += 1
